@@ -35,7 +35,7 @@ Lemma sstep_dev W st o d c opened :
     (forall k cid, o = ROpen d k cid ->
        (c <? k) && (k <=? c + N.of_nat W + N.of_nat (length opened)) = true -> In k opened').
 Proof.
-  intros H ND Hlt. destruct o as [d0 c0|d0 k0 cid0|d0]; cbn [sstep].
+  intros H ND Hlt. destruct o as [d0 c0|d0 k0 cid0|d0|d0]; cbn [sstep].
   - destruct (st d0) eqn:E0; cbn [fst].
     + exists opened. repeat split; auto using incl_refl. discriminate.
     + unfold supd. destruct (N.eqb_spec d d0) as [->|Hne]; [congruence|].
@@ -57,6 +57,7 @@ Proof.
         -- exists opened. repeat split; auto using incl_refl.
            intros k cid E Hr'. injection E as -> -> _. rewrite H in E0. injection E0 as <- <-. congruence.
     + cbn [fst]. exists opened. repeat split; auto using incl_refl. intros k cid E. congruence.
+  - cbn [fst]. exists opened. repeat split; auto using incl_refl. discriminate.
   - cbn [fst]. exists opened. repeat split; auto using incl_refl. discriminate.
 Qed.
 
